@@ -148,8 +148,18 @@ def run_case(ctx):
                            cond_input=cond_input, **k)
     seed = int(rng.integers(2 ** 31))
 
+    # every other case hands all arguments over by position, in the documented order
+    order = ['n_channel', 'n_sim', 'signal', 'noise', 'signal_cov_channel', 'noise_cov_channel', 'noise_cov_trial',
+             'use_exact_signal', 'use_same_signal']
+    defaults = dict(n_channel=30, n_sim=1, signal=1, noise=1, signal_cov_channel=None, noise_cov_channel=None,
+                    noise_cov_trial=None, use_exact_signal=False, use_same_signal=False)
+    positional = bool(seed % 2)
+
     def sim(**kw):
         np.random.seed(seed)
+        if positional:
+            full = dict(defaults, n_channel=n_ch, n_sim=n_sim, signal=signal, **kw)
+            return make_dataset(model, theta, arg.copy(), *[full[k] for k in order])
         return make_dataset(model, theta, arg.copy(), n_channel=n_ch, n_sim=n_sim, signal=signal, **kw)
     ok, dss = ctx.guarded('exact_signal_rdm', sig, sim, noise=0, use_exact_signal=True, data=wit)
     if not ok:
@@ -204,7 +214,9 @@ def run_case(ctx):
                      'identical noise-free data', wit())
     # ---- noise additive, scales with sqrt(noise variance): replay the seed with noise 0, v, 4v
     v = float(gen.pick(rng, [0.3, 1.0, 2.0]))
-    ncov = gen.spd(rng, n_ch, 20.0) if rng.integers(2) else None
+    nck = gen.pick(rng, ['none', 'dense', 'dense', 'diagonal'])
+    chvar = rng.uniform(0.2, 5.0, size=n_ch) if rng.integers(2) else np.full(n_ch, float(rng.uniform(0.2, 5.0)))
+    ncov = None if nck == 'none' else (gen.spd(rng, n_ch, 20.0) if nck == 'dense' else np.diag(chvar))
     s2 = dict(sig, noise_cov=ncov is not None)
     exact = bool(rng.integers(2))
     try:
@@ -215,6 +227,23 @@ def run_case(ctx):
         ctx.fail('noise_additive_sqrt', dict(s2, what='raised', exception=type(exc).__name__), repr(exc), wit(noise=v))
         return
     ctx.case('noise_additive_sqrt', s2)
+    if nck == 'diagonal':
+        # independent channels with their own variances (or one common variance): the noise term is the white noise term
+        # of the same random draws with channel j scaled by the square root of its variance
+        try:
+            w0 = sim(noise=0, use_exact_signal=exact)
+            w1 = sim(noise=v, use_exact_signal=exact)
+        except Exception as exc:
+            ctx.fail('noise_additive_sqrt', dict(s2, what='raised', exception=type(exc).__name__), repr(exc), wit(noise=v))
+            return
+        for s in range(n_sim):
+            ew = w1[s].measurements - w0[s].measurements
+            e1 = d1[s].measurements - d0[s].measurements
+            if not close(e1, ew * np.sqrt(chvar)[None, :], 1e-8, 1e-9):
+                ctx.fail('noise_additive_sqrt', dict(s2, what='channel_variances'), f'with a diagonal channel covariance '
+                         f'the noise of channel j is not sqrt(variance_j) times the white noise of the same draws: max '
+                         f'deviation {maxdiff(e1, ew * np.sqrt(chvar)[None, :])}', wit(noise=v, channel_variances=chvar))
+                return
     for s in range(n_sim):
         e1 = d1[s].measurements - d0[s].measurements
         e4 = d4[s].measurements - d0[s].measurements
